@@ -641,7 +641,7 @@ def curated(seed):
     # ---- literals
     for v in [2, 3, -2, 99, 100, 101, -117]:
         add(f"int{v}", v)
-    for v in [0.5, float(np.nextafter(0.5, 1)), 1.5, -0.25, 2.0, 1e-300, 1e300, 10.5, 9.5]:
+    for v in [0.5, float(np.nextafter(0.5, 1)), 1.5, -0.25, 2.0, 1e-300, 1e300, 10.5, 9.5, 0.125, 2.75, 3.0]:
         add(f"float{v!r}", v)
     for v in [1j, 2 - 1j, 0.5 + 0.5j, -1j]:
         add(f"complex{v!r}", v)
